@@ -145,7 +145,8 @@ def const_local_defs(unit, fn):
             d = callee_decl(unit, n)
             prefs = (d or {}).get("prefs", [])
             for i, a in enumerate(n.get("args", [])):
-                if i < len(prefs) and prefs[i] in ("lref", "rref"):
+                # an indirect call (function pointer / pointer to member) has no declaration here: assume it may write
+                if (d is None) or (i < len(prefs) and prefs[i] in ("lref", "rref")):
                     x = unwrap(unit, a)
                     if x is not None and x.get("k") == "ref":
                         written.add(x.get("id"))
